@@ -5,6 +5,7 @@ CONSTANTS
   KeepHist = FALSE
   GrowLen = 0
   AscSizes = {}
+  BatchPct = 0
   GenLen = 0
 SPECIFICATION Spec
 VIEW View
